@@ -42,6 +42,67 @@ theorem fstree_rejects_before_access (base key : Path) (chk : Bool) (hb : isAbs 
     have := fstree_contained base key chk dst hb h
     exact absurd (this.2 ▸ this.1.2) hesc
 
+/-- The check does not over-reject: every non-empty key that stays strictly below a (clean) base path is accepted. -/
+theorem fstree_accepts_inside (base key : Path) (chk : Bool) (hb : isAbs base = true) (hc : clean base = base)
+    (hroot : base ≠ [47]) (hk : key ≠ []) (x : Path) (xs : List Path)
+    (hin : resolveFrom (resolve base) key = resolve base ++ x :: xs) :
+    buildFilePath base key chk = .ok (join2 base key) := by
+  have hlen : ¬ key.length < 1 := by
+    cases key with
+    | nil => exact absurd rfl hk
+    | cons _ _ => simp
+  simp [buildFilePath, hlen, hasPrefix_join2_of_strict hb hc hroot hin]
+
+/-- Record keys (Get / Put / Delete) never address the base directory itself: the file is strictly below it. -/
+theorem fstree_key_strictly_inside (base key dst : Path) (hb : isAbs base = true)
+    (h : buildFilePath base key true = .ok dst) : StrictlyInside base dst := by
+  unfold buildFilePath at h
+  split at h
+  · cases h
+  · dsimp only at h
+    split at h
+    · cases h
+    · rename_i hc
+      cases h
+      simp at hc
+      rw [join2_abs hb] at hc ⊢
+      exact strictlyInside_of_clean_hasPrefix (isAbs_append hb _) (ne_nil_of_isAbs hb) hc
+
+/-- The directory `Query` walks is inside the base path, for every query prefix — provided the base
+    directory exists (which `NewFSTree` establishes). -/
+theorem fstree_query_walk_contained (base pre wr : Path) (stat : Path → StatKind) (hb : isAbs base = true)
+    (hdir : stat base = .dir) (h : queryWalkRoot base pre stat = .ok wr) : Inside base wr := by
+  unfold queryWalkRoot at h
+  cases hbf : buildFilePath base pre false with
+  | error e => rw [hbf] at h; cases h
+  | ok wp =>
+    rw [hbf] at h
+    dsimp only at h
+    have hin := (fstree_contained base pre false wp hb hbf).1
+    cases hst : stat wp with
+    | dir => rw [hst] at h; cases h; exact hin
+    | file | absent =>
+      rw [hst] at h
+      cases h
+      have hne : wp ≠ base := by intro e; rw [e, hdir] at hst; cases hst
+      -- wp passed the scope check without being the base path: it starts with base ++ "/"
+      unfold buildFilePath at hbf
+      simp only [Bool.false_eq_true, false_and, if_false, Bool.false_or] at hbf
+      split at hbf
+      · cases hbf
+      · rename_i hc
+        cases hbf
+        simp [hne] at hc
+        rw [join2_abs hb] at hc hne ⊢
+        have habs := isAbs_append hb (47 :: pre)
+        obtain ⟨x, xs, hx⟩ := resolve_strict_of_hasPrefix (resolve_allNormal _) (ne_nil_of_isAbs hb)
+          (by rw [← clean_abs habs]; exact hc)
+        rw [clean_abs habs]
+        obtain ⟨h1, h2⟩ := dirOf_cleanAbs (resolve_allNormal (base ++ 47 :: pre))
+        refine ⟨h1, ?_⟩
+        rw [h2, hx, List.dropLast_append_of_ne_nil (by simp)]
+        exact List.prefix_append _ _
+
 /-! ### Directory-structure helper: requested paths -/
 
 /-- Every directory `EnsureAbsPath` creates / chmods for an accepted path lies inside the structure's root. -/
@@ -103,6 +164,12 @@ theorem dirstructure_rejects_before_access (root dirPath : Path) (hr : isAbs roo
         have := resolve_prefix_of_hasPrefix (resolve_allNormal dirPath) hpre
         rwa [hres] at this
 
+/-- `EnsureRelPath` and `EnsureRelDir` join the supplied name(s) below the root and go through the same check. -/
+theorem dirstructure_rel_contained (root : Path) (hr : isAbs root = true) :
+    (∀ rel dirs, ensureRelPath root rel = .ok dirs → ∀ d ∈ dirs, Inside root d) ∧
+    (∀ names dirs, ensureRelDir root names = .ok dirs → ∀ d ∈ dirs, Inside root d) :=
+  ⟨fun _ dirs h => dirstructure_contained root _ dirs hr h, fun _ dirs h => dirstructure_contained root _ dirs hr h⟩
+
 /-! ### Archive unpacking: zip entry names -/
 
 /-- The destination of an accepted entry lies inside the unpack directory and is what the entry name denotes there. -/
@@ -129,6 +196,11 @@ theorem unpack_rejects_before_access (tmp name : Path) (ht : isAbs tmp = true)
   | ok dst =>
     have := unpack_contained tmp name dst ht h
     exact absurd (this.2 ▸ this.1.2) hesc
+
+theorem unpack_accepts_inside (tmp name : Path) (ht : isAbs tmp = true) (hc : clean tmp = tmp) (hroot : tmp ≠ [47])
+    (x : Path) (xs : List Path) (hin : resolveFrom (resolve tmp) name = resolve tmp ++ x :: xs) :
+    unpackDst tmp name = .ok (join2 tmp name) := by
+  simp [unpackDst, hasPrefix_join2_of_strict ht hc hroot hin]
 
 /-- The whole loop over an archive: every destination written is inside the unpack directory. -/
 theorem unpackAll_contained (tmp : Path) (names : List Path) (ht : isAbs tmp = true) :
@@ -259,5 +331,43 @@ theorem sibling_prefix_not_inside (parent name ext : Path) (hn : Normal name) (h
   have := List.append_cancel_left hlen
   simp at this
   exact he this
+
+/-- The concrete regression (DESIGN §7 #21): `/a/root-other/x` is not inside `/a/root`. -/
+theorem sibling_prefix_not_inside_example : ¬ Inside (B "/a/root") (B "/a/root-other/x") := by decide
+
+/-! ### Non-vacuity: the observed attack inputs are rejected, ordinary names are accepted with the expected path -/
+
+-- fstree (#21): sibling sharing the name prefix, parent references, the base directory itself
+example : buildFilePath (B "/a/root") (B "../root-other/evil") true = .error .integrity := by decide
+example : buildFilePath (B "/a/root") (B "d/../../rootx") true = .error .integrity := by decide
+example : buildFilePath (B "/a/root") (B ".") true = .error .integrity := by decide
+example : buildFilePath (B "/a/root") (B "") true = .error .tooShort := by decide
+example : buildFilePath (B "/a/root") (B "d/../x//y/.") true = .ok (B "/a/root/x/y") := by decide
+example : buildFilePath (B "/a/root") (B "../root/k") true = .ok (B "/a/root/k") := by decide
+example : buildFilePath (B "/a/root") (B "") false = .ok (B "/a/root") := by decide
+example : queryWalkRoot (B "/a/root") (B "d/b") (fun p => if p = B "/a/root/d/b" then .file else .dir) = .ok (B "/a/root/d") := by decide
+example : queryWalkRoot (B "/a/root") (B "../root-other") (fun _ => .dir) = .error .integrity := by decide
+example : buildFilePath (B "/a/root") (B "d/../x") true = .ok (join2 (B "/a/root") (B "d/../x")) :=
+  fstree_accepts_inside (B "/a/root") (B "d/../x") true (by decide) (by decide) (by decide) (by decide) (B "x") [] (by decide)
+-- DirStructure (#22): parent references behind a matching prefix
+example : ensureAbsPath (B "/a/root") (B "/a/root/../outside/x") = .error .outside := by decide
+example : ensureAbsPath (B "/a/root") (B "/a/root-other/x") = .error .outside := by decide
+example : ensureAbsPath (B "/a/root/") (B "/a/root/tmp/../k//m") = .ok [B "/a/root/", B "/a/root/k", B "/a/root/k/m"] := by decide
+example : ensureAbsPath (B "/a/root") (B "/a/root/") = .ok [B "/a/root"] := by decide
+example : ensureRelPath (B "/a/root") (B "../other/k") = .error .outside := by decide
+example : ensureRelDir (B "/a/root") [B "..", B "root", B "k"] = .ok [B "/a/root", B "/a/root/k"] := by decide
+-- unpacking (#24): zip slip
+example : unpackDst (B "/s/tmp/thing_v1-0-0") (B "../../../root-other/evil") = .error .insecure := by decide
+example : unpackDst (B "/s/tmp/thing_v1-0-0") (B "/abs") = .ok (B "/s/tmp/thing_v1-0-0/abs") := by decide
+example : unpackAll (B "/s/tmp/t") [B "ok.txt", B "d/", B "../x", B "later"] = ([B "/s/tmp/t/ok.txt", B "/s/tmp/t/d"], some .insecure) := by decide
+-- ScanStorage (#23): sibling sharing the name prefix, relative roots
+example : scanRoot (B "/s/storage") (B "/s") (B "/s/storage-other") = .error .outside := by decide
+example : scanRoot (B "/s/storage") (B "/s") (B "storage-other/x") = .error .outside := by decide
+example : scanRoot (B "/s/storage") (B "/s") (B "storage/all/../pkg") = .ok (B "/s/storage/pkg") := by decide
+example : scanRoot (B "/s/storage") (B "/s") (B "") = .ok (B "/s/storage") := by decide
+-- api bridge
+example : bridgeURL PB.Gen.Paths.apiV1Path (B "../v1x/ping") = .error .scope := by decide
+example : bridgeURL PB.Gen.Paths.apiV1Path (B "") = .error .scope := by decide
+example : bridgeURL PB.Gen.Paths.apiV1Path (B "core/../ping") = .ok (B "/api/v1/ping") := by decide
 
 end PB.C18
